@@ -3,7 +3,7 @@ from mqbase import *
 import mqbase
 
 ID = "C17"
-PROPS = ["C17", "C07Glue"]
+PROPS = ["C17", "C07Glue", "C17Api"]
 RULE = ("scripted mixes on the real MessagesQueue<u64>: u unblocks, p pushes, 1..3 receivers with unblock before / while / after "
         "blocking, try_pop on empty, token-only and mixed queues, pop_timeout with T in {5, 50, 200 ms} measured by wall clock "
         "(bounds T - 1 ms <= d <= 2T + 500 ms for empty-handed returns by time); the implementation's outcome must be one of the "
